@@ -107,7 +107,7 @@ theorem fixNs_pframed : ∀ (fuel : Nat) (H : NsHeap) (n : Nat) (par nsid : Opti
     exact fixNs_fold_pframed fuel n _ (fixNs_pframed fuel) H (H.kids n) (fun c hc => hc)
   | fuel + 1, H, n, some r, nsid, hpar => by
     simp only [fixNs]
-    have h1 : ∃ H1, (if (H.cell r).same (H.nsmapOf n) = true then H.setNs n r else (H.cell r).foldl (fixBind n) H) = H1 ∧
+    have h1 : ∃ H1, (if (r == H.ns n || (H.cell r).same (H.nsmapOf n)) = true then H.setNs n r else (H.cell r).foldl (fixBind n) H) = H1 ∧
         PFramed n H H1 := by
       split
       · exact ⟨_, rfl, pframed_setNs H n r (hpar r rfl) (Reach.refl n)⟩
